@@ -31,6 +31,14 @@ PLAIN = ['notes', 'readme.txt', 'data.json', '.hidden', 'log', 'catalog', 'x.lo'
 ODD = ['a.logger', 'a.log.old', 'b.log.1.bz2', 'c.log.', 'd.log.1.g', 'e.log.x1', 'f.log.1.gz.1']
 
 
+ODD_PATHS = ['/d/' + n for n in ODD] + [
+    '/d/a.log\n', '/d/a.log.3\n', '/d/a.log.3.gz\n', '/d/a.log.3.g', '/d/x y.log', '/d/x.log y',
+    ' /d/a.log', '/d/.log', '.log', 'a.log', '/d/a.log.log', '/d/a.log.1.log.2', '/d/a.log.007',
+    '/d/a.log.1.gz.gz', '/d/a.log.12x', '/d/a.log.x12', '/d/a.logs', '/d/alog', '/d/a.lo',
+    '/d.log/a', '/d.log/a.log.1', '/d/a.log.1 .gz', '/d/\u00a0a.log', '/d/a\tb.log.1',
+    '/d/a.log.', '/d/a.log..1', '/d/a.log.1.', '/d/a.LOG', '/d/a.log.1.GZ', '', 'x']
+
+
 def gen_case(rng, tier):
     names, dirs = [], []
     for stem in rng.sample(STEMS, rng.choice([1, 1, 2, 3])):
@@ -313,8 +321,18 @@ def run(tier, seed, replay_case=None):
         items += eval_cases(None, 0, {'fixed': corpus})
     if replay_case is None:
         items += core.run_sharded(eval_cases, seed, total, {'tier': tier})
-    mobs = core.Driver().run([model_case(it['case'], it['impl']) if 'crash' not in it['impl']
-                              else {'kind': 'catalog', 'depth': 0, 'regs': []} for it in items])
+    drv = core.Driver()
+    mobs = drv.run([model_case(it['case'], it['impl']) if 'crash' not in it['impl']
+                    else {'kind': 'catalog', 'depth': 0, 'regs': []} for it in items])
+    # the regexes of search.py hand-modelled in Lean (SkModel.NameRx) vs Python's re, on
+    # every name met plus a stream of odd names; a disagreement is a defect of the model
+    names = sorted({'/d/' + n for it in items for n in it['case']['names']} | set(ODD_PATHS))
+    for nm, (cls, stem, key) in zip(names, drv.run([{'kind': 'namerx', 'names': names}])[0]['model']):
+        c2 = classify_re(nm)
+        if (cls, stem, key) != (c2[0], c2[1], c2[2]):
+            raise core.Infra(f"SkModel.NameRx disagrees with Python re on {nm!r}: "
+                             f"lean={(cls, stem, key)} re={c2}")
+    rep.extra['names_checked_against_lean_regex_model'] = len(names)
     for it, mo in zip(items, mobs):
         judge(rep, it, mo)
     rep.assumptions = ["os.path.isfile / os.listdir / glob.glob say what a path denotes",
